@@ -36,6 +36,8 @@ var c16Tmux = []c16Noise{
 	{"crlf-wrap", func(l []byte, p, m int) ([]byte, bool) { return ins(l, p, "\r\n"), p > 0 }},
 	{"text-before-marker", func(l []byte, p, m int) ([]byte, bool) { return ins(l, 0, "user@host:~$ tsz x \x1b[0m"), p == 0 }},
 	{"older-line-before-marker", func(l []byte, p, m int) ([]byte, bool) { return ins(l, 0, "#SUCC:old#DATA:junk"), p == 0 }},
+	// the reader took over the stream in the middle of a status refresh: its second half lies in front of the marker
+	{"status-tail-before-marker", func(l []byte, p, m int) ([]byte, bool) { return ins(l, 0, "host 12:00\x1bP=more status\x1b\\"), p == 0 }},
 	{"status-line", func(l []byte, p, m int) ([]byte, bool) {
 		return ins(l, p, "\x1bP=1s\x1b\\\x1b[?25l\x1bP=2s\x1b\\"), false // placeholder, replaced below
 	}},
@@ -43,7 +45,7 @@ var c16Tmux = []c16Noise{
 
 func init() {
 	// one complete tmux status-line control string: ESC P = ... ESC P = ... ESC \
-	c16Tmux[3] = c16Noise{"status-line", func(l []byte, p, m int) ([]byte, bool) {
+	c16Tmux[4] = c16Noise{"status-line", func(l []byte, p, m int) ([]byte, bool) {
 		return ins(l, p, "\x1bP=1;2;3host 12:00\x1bP=more status\x1b\\"), p >= m
 	}}
 }
